@@ -272,4 +272,77 @@ theorem buildFolded_eq (g : UGraph) (frs : List (List ℕ))
     simp [this]
   · rfl
 
+theorem buildFolded_valid' (g : UGraph) (frs : List (List ℕ)) (h : Layered g frs) :
+    (buildFolded g frs).valid g = true := by
+  rw [buildFolded_eq g frs h.arity]
+  generalize hgr : frs.flatMap (groupFrontier g.key) = groups
+  have hperm : groups.flatten.Perm (List.range g.n) := by
+    rw [← hgr]; exact (flatMap_groupFrontier_perm g.key frs).trans h.perm
+  have hinv := groups_inv g.key frs
+  rw [hgr] at hinv
+  simp only [FoldCert.valid, Bool.and_eq_true, beq_iff_eq, List.all_eq_true, List.mem_range]
+  refine ⟨⟨⟨⟨?_, by simp⟩, fun gi hgi => ?_⟩, by simp⟩, fun j hj => ?_⟩
+  · -- the groups partition the modules
+    simp only [FoldCert.partitions, Bool.and_eq_true, beq_iff_eq, List.all_eq_true, List.mem_range]
+    refine ⟨by rw [hperm.length_eq, List.length_range], fun m hm => ?_⟩
+    rw [hperm.count_eq]
+    rw [List.Nodup.count List.nodup_range, if_pos (List.mem_range.mpr hm)]
+  · -- group `gi`
+    have hM : groups.getD gi [] = groups[gi] := List.getD_eq_getElem _ _ hgi
+    have hI : ∀ F : List ℕ → List (List (ℕ × ℕ)), (groups.map F).getD gi [] = F groups[gi] := by
+      intro F
+      rw [List.getD_eq_getElem _ _ (by simpa using hgi), List.getElem_map]
+    rw [hM, hI]
+    have hmem : groups[gi] ∈ groups := List.getElem_mem hgi
+    obtain ⟨hne, hhom⟩ := hinv _ hmem
+    generalize groups[gi] = members at hM hmem hne hhom
+    refine ⟨⟨⟨by simp, ?_⟩, fun m hm => ?_⟩, fun f hf => ?_⟩
+    · cases members with
+      | nil => exact absurd rfl hne
+      | cons a as => rfl
+    · have hk : g.key m = g.key (members.headD 0) := hhom m hm
+      exact ⟨hk, h.arity _ _ hk⟩
+    · have hR : ∀ G : ℕ → List (ℕ × ℕ), (members.map G).getD f [] = G members[f] := by
+        intro G
+        rw [List.getD_eq_getElem _ _ (by simpa using hf), List.getElem_map]
+      have hm : members.getD f 0 = members[f] := List.getD_eq_getElem _ _ hf
+      rw [hR, hm]
+      have hmm : members[f] ∈ members := List.getElem_mem hf
+      generalize members[f] = m at hmm
+      refine ⟨by simp, fun x hx => ?_⟩
+      have hx' : x < (g.ins m).length := by simpa using hx
+      have hi : (g.ins m).getD x 0 = (g.ins m)[x] := List.getD_eq_getElem _ _ hx'
+      have hrow : (List.map (fun i => (FoldCert.loc groups i).getD (0, 0)) (g.ins m)).getD x (0, 0)
+          = (FoldCert.loc groups (g.ins m)[x]).getD (0, 0) := by
+        rw [List.getD_eq_getElem _ _ hx, List.getElem_map]
+      rw [hi, hrow]
+      have him : (g.ins m)[x] ∈ g.ins m := List.getElem_mem hx'
+      generalize (g.ins m)[x] = i at him
+      -- locate group `gi` in the image of frontier `k`
+      obtain ⟨k, hk, hle, hmk⟩ := flatMap_split (groupFrontier g.key) frs gi (by rw [hgr]; exact hgi)
+      rw [hgr, hM] at hmk
+      have hmfr : m ∈ frs.getD k [] :=
+        (groupFrontier_perm g.key _).mem_iff.mp (List.mem_flatten.mpr ⟨members, hmk, hmm⟩)
+      have hiA : i ∈ ((frs.take k).flatMap (groupFrontier g.key)).flatten :=
+        (flatMap_groupFrontier_perm g.key _).mem_iff.mpr (h.earlier k hk m hmfr i him)
+      have hsplit : groups = (frs.take k).flatMap (groupFrontier g.key)
+          ++ (frs.drop k).flatMap (groupFrontier g.key) := by
+        rw [← List.flatMap_append, List.take_append_drop, hgr]
+      obtain ⟨p, hp, hlt⟩ := loc_append_left ((frs.drop k).flatMap (groupFrontier g.key)) hiA
+      rw [← hsplit] at hp
+      rw [hp]
+      simp only [Option.getD_some, beq_self_eq_true, Bool.true_and, decide_eq_true_eq]
+      omega
+  · -- outputs
+    have ho : g.outputs.getD j 0 = g.outputs[j] := List.getD_eq_getElem _ _ hj
+    have hrow : (List.map (fun i => (FoldCert.loc groups i).getD (0, 0)) g.outputs).getD j (0, 0)
+        = (FoldCert.loc groups g.outputs[j]).getD (0, 0) := by
+      rw [List.getD_eq_getElem _ _ (by simpa using hj), List.getElem_map]
+    rw [ho, hrow]
+    have hlt : g.outputs[j] < g.n := h.outs _ (List.getElem_mem hj)
+    have hin : g.outputs[j] ∈ groups.flatten := hperm.mem_iff.mpr (List.mem_range.mpr hlt)
+    obtain ⟨p, hp⟩ := loc_of_mem hin
+    rw [hp]; rfl
+
+
 end Cirkit
